@@ -5,6 +5,7 @@ From Zeno Require Pin PinP PinSrc Facts TiePin.
 From Zeno Require Tree TreeP.
 From Zeno Require TieTree.
 From Zeno Require RowCodec RowCodecP TieRow.
+From Zeno Require CorrRow.
 Local Open Scope Z_scope.
 
 (* two histories with the same inserts in the same order, split between memory and disk by ANY flushes
@@ -116,6 +117,13 @@ Example C03_row_nonvacuous :
   /\ RowCodec.decode_row (RowCodec.encode_row [1; 2; 3] [[7; 8]; []; [9]] ++ [42]) = Some ([1; 2; 3], [[7; 8]; []; [9]], [42]).
 Proof. exact RowCodecP.row_roundtrip_nonvacuous. Qed.
 
+(* a whole file: the rows a flush writes one after the other are the rows a scan reads, in order, to the end of the file
+   (with the reader and the fuel the correspondence stage rowfile runs on real files) *)
+Theorem C03_file_written_is_file_read : forall rows : list (list Z * list (list Z)),
+  Forall (fun r => RowCodecP.fits (fst r) (snd r)) rows ->
+  CorrRow.decode_all (S (length (RowCodecP.encode_rows rows))) (RowCodecP.encode_rows rows) = Some rows.
+Proof. exact RowCodecP.file_roundtrip. Qed.
+
 Print Assumptions C03_schedule_independent.
 Print Assumptions C03_disk_equals_mem_after_flush.
 Print Assumptions C03_split_anywhere.
@@ -128,3 +136,4 @@ Print Assumptions C03_tree_iterate_each_key_once.
 Print Assumptions C03_tree_source_as_modelled.
 Print Assumptions C03_row_written_is_row_read.
 Print Assumptions C03_row_format_as_modelled.
+Print Assumptions C03_file_written_is_file_read.
